@@ -256,15 +256,27 @@ theorem outside_outsideI {i : Nat} {Ui F : List Tok} {P : Tok → Prop} {b : Bra
     (hP : ∀ t, (Prot i Ui t ∨ t ∈ F) → P t) : OutsideI i Ui F b :=
   ⟨h.1, h.2.1, fun t ht => ⟨fun hp => h.2.2.2 t ht (hP t (Or.inl hp)), fun hf => h.2.2.2 t ht (hP t (Or.inr hf))⟩⟩
 
+theorem Sim.weakenF {i : Nat} {st0 : Store C} {Ui F F' : List Tok} {w : World C} {act : List (Branch σ S C)}
+    {stA : Store C} {b : Branch σ S C} (h : Sim i st0 Ui F w act stA b) (hF : ∀ t ∈ F', t ∈ F) :
+    Sim i st0 Ui F' w act stA b := by
+  obtain ⟨pre, suf, hact, hout⟩ := h.split
+  exact ⟨⟨pre, suf, hact, fun b' hb' => ⟨(hout b' hb').1, (hout b' hb').2.1,
+      fun t ht => ⟨((hout b' hb').2.2 t ht).1, fun hf => ((hout b' hb').2.2 t ht).2 (hF t hf)⟩⟩⟩,
+    h.bid, h.loc, h.mine, fun t ht => ⟨(h.ui t ht).1, fun hf => (h.ui t ht).2 (hF t hf)⟩,
+    fun t ht => h.fup t (hF t ht), fun t ht => h.prist t (hF t ht), h.agree⟩
+
 /-- one value filled into the branches, seen from branch `i` -/
 theorem fillG_sim (i : Nat) (st0 : Store C) (Ui Fut : List Tok) (lastOrig : Bool) (x : Item S) (w : World C)
     (act : List (Branch σ S C)) (stA : Store C) (b : Branch σ S C)
     (hsim : Sim i st0 Ui (x.cells ++ Fut) w act stA b) (hdisj : ∀ t ∈ x.cells, t ∉ Fut) :
-    (proj i (fillG lastOrig x w act).evs = [] ∧ (fillG lastOrig x w act).stopped = true) ∨
+    (proj i (fillG lastOrig x w act).evs = [] ∧ (fillG lastOrig x w act).stopped = true ∧
+      Sim i st0 Ui [] (fillG lastOrig x w act).w (fillG lastOrig x w act).brs stA b) ∨
     ∃ y copied,
       y.skel = x.skel ∧ (copied = false → y = x) ∧ (copied = true → ∀ t ∈ y.cells, t.1 = copyNsOf i) ∧
       proj i (fillG lastOrig x w act).evs = (aloneFill st0 x y copied stA b).1 ∧
       ((aloneFill st0 x y copied stA b).2.2.2 = true → (fillG lastOrig x w act).stopped = true) ∧
+      Sim i st0 (UiNext copied Ui [x]) [] (fillG lastOrig x w act).w (fillG lastOrig x w act).brs
+        (aloneFill st0 x y copied stA b).2.1 (aloneFill st0 x y copied stA b).2.2.1 ∧
       ((fillG lastOrig x w act).stopped = false →
         Sim i st0 (UiNext copied Ui [x]) Fut (fillG lastOrig x w act).w (fillG lastOrig x w act).brs
           (aloneFill st0 x y copied stA b).2.1 (aloneFill st0 x y copied stA b).2.2.1) := by
@@ -277,7 +289,13 @@ theorem fillG_sim (i : Nat) (st0 : Store C) (Ui Fut : List Tok) (lastOrig : Bool
     (fun b' hb' => outsideI_outside (hout b' (List.mem_append_left _ hb')) huiup (fun t ht => ⟨hsim.fup t ht, ht⟩))
   generalize fillG false x w pre = R at p1 p2 p3
   split
-  · exact Or.inl ⟨p2, rfl⟩
+  · refine Or.inl ⟨p2, rfl, ⟨R.brs, suf, rfl, ?_⟩, hsim.bid, hsim.loc, hsim.mine,
+      fun t ht => ⟨huiup t ht, by simp⟩, by simp, by simp, fun t ht => by rw [p1 t (Or.inl ht)]; exact hsim.agree t ht⟩
+    intro b' hb'
+    rcases List.mem_append.mp hb' with hb' | hb'
+    · exact outside_outsideI (p3 b' hb') (by intro t ht; rcases ht with ht | ht; exact Or.inl ht; simp at ht)
+    · obtain ⟨o1, o2, o3⟩ := hout b' (List.mem_append_right _ hb')
+      exact ⟨o1, o2, fun t ht => ⟨(o3 t ht).1, by simp⟩⟩
   · right
     obtain ⟨y, t1, t2, t3, t4, t5, t6, t7, t8, t9⟩ := fillOne_sim i st0 Ui x (!suf.isEmpty || !lastOrig) R.w stA b
       hsim.bid hsim.loc hsim.mine hxup
@@ -312,10 +330,51 @@ theorem fillG_sim (i : Nat) (st0 : Store C) (Ui Fut : List Tok) (lastOrig : Bool
         · rcases List.mem_append.mp hp with hp | hp
           · exact (hsim.ui t hp).2 (List.mem_append_right _ ht)
           · exact hdisj t (by simpa [cellsOf] using hp) ht
+    have hpreOut : ∀ (F' : List Tok), (∀ t ∈ F', t ∈ Fut) → ∀ b' ∈ R.brs,
+        OutsideI i (UiNext (!suf.isEmpty || !lastOrig) Ui [x]) F' b' := by
+      intro F' hF' b' hb'
+      refine outside_outsideI (p3 b' hb') ?_
+      intro t ht
+      rcases ht with ht | ht
+      · rcases ht with ht | ht | ht
+        · exact Or.inl (Or.inl ht)
+        · exact Or.inl (Or.inr (Or.inl ht))
+        · simp only [UiNext] at ht
+          split at ht
+          · exact Or.inl (Or.inr (Or.inr ht))
+          · rcases List.mem_append.mp ht with ht | ht
+            · exact Or.inl (Or.inr (Or.inr ht))
+            · exact Or.inr (List.mem_append_left _ (by simpa [cellsOf] using ht))
+      · exact Or.inr (List.mem_append_right _ (hF' t ht))
+    have huiNext : ∀ (F' : List Tok), (∀ t ∈ F', t ∈ Fut) → ∀ t ∈ UiNext (!suf.isEmpty || !lastOrig) Ui [x],
+        t.1 = upNs ∧ t ∉ F' := by
+      intro F' hF' t ht
+      simp only [UiNext] at ht
+      split at ht
+      · exact ⟨huiup t ht, fun hf => (hsim.ui t ht).2 (List.mem_append_right _ (hF' t hf))⟩
+      · rcases List.mem_append.mp ht with ht | ht
+        · exact ⟨huiup t ht, fun hf => (hsim.ui t ht).2 (List.mem_append_right _ (hF' t hf))⟩
+        · have hx : t ∈ x.cells := by simpa [cellsOf] using ht
+          exact ⟨hxup t hx, fun hf => hdisj t hx (hF' t hf)⟩
     split
     · -- branch `i` raised LenaStopFill
       rename_i hstop
-      refine ⟨by simp only; rw [proj_append, p2, hTproj, t4]; rfl, fun _ => rfl, fun h => by simp at h⟩
+      refine ⟨by simp only; rw [proj_append, p2, hTproj, t4]; rfl, fun _ => rfl, ?_, fun h => by simp at h⟩
+      simp only
+      refine ⟨⟨R.brs, suf, by rw [t5], ?_⟩, by rw [← t5, fb1]; exact hsim.bid,
+        by rw [← t5, fb3]; exact hsim.loc, by rw [← t5, fb3]; exact t9, huiNext [] (by simp), by simp, by simp, t7⟩
+      intro b' hb'
+      rcases List.mem_append.mp hb' with hb' | hb'
+      · exact hpreOut [] (by simp) b' hb'
+      · obtain ⟨o1, o2, o3⟩ := hout b' (List.mem_append_right _ hb')
+        have hm : (!suf.isEmpty || !lastOrig) = true := by
+          cases suf with
+          | nil => exact absurd hb' (List.not_mem_nil)
+          | cons _ _ => rfl
+        refine ⟨o1, o2, fun t ht => ⟨?_, List.not_mem_nil⟩⟩
+        rw [hm]
+        simp only [UiNext, if_true]
+        exact (o3 t ht).1
     · rename_i hstop
       -- the branches after `i`
       have hq : (∀ t, (Prot i (UiNext (!suf.isEmpty || !lastOrig) Ui [x]) t ∨ t ∈ Fut) →
@@ -342,38 +401,16 @@ theorem fillG_sim (i : Nat) (st0 : Store C) (Ui Fut : List Tok) (lastOrig : Bool
               (fun t ht => ⟨hsim.fup t (List.mem_append_right _ ht), List.mem_append_right _ ht⟩)
       obtain ⟨q1, q2, q3⟩ := hq
       generalize fillG lastOrig x T.2.1 suf = Q at q1 q2 q3
-      refine ⟨by simp only; rw [proj_append, proj_append, p2, hTproj, q2, t4]; simp, ?_, ?_⟩
-      · intro h; rw [← t6] at h; exact absurd h hstop
-      · intro _
-        simp only
+      have hSim : Sim i st0 (UiNext (!suf.isEmpty || !lastOrig) Ui [x]) Fut Q.w (R.brs ++ T.2.2.1 :: Q.brs)
+          (aloneFill st0 x y (!suf.isEmpty || !lastOrig) stA b).2.1 (aloneFill st0 x y (!suf.isEmpty || !lastOrig) stA b).2.2.1 := by
         have hothers : ∀ b' ∈ R.brs ++ Q.brs, OutsideI i (UiNext (!suf.isEmpty || !lastOrig) Ui [x]) Fut b' := by
           intro b' hb'
           rcases List.mem_append.mp hb' with hb' | hb'
-          · refine outside_outsideI (p3 b' hb') ?_
-            intro t ht
-            rcases ht with ht | ht
-            · rcases ht with ht | ht | ht
-              · exact Or.inl (Or.inl ht)
-              · exact Or.inl (Or.inr (Or.inl ht))
-              · simp only [UiNext] at ht
-                split at ht
-                · exact Or.inl (Or.inr (Or.inr ht))
-                · rcases List.mem_append.mp ht with ht | ht
-                  · exact Or.inl (Or.inr (Or.inr ht))
-                  · exact Or.inr (List.mem_append_left _ (by simpa [cellsOf] using ht))
-            · exact Or.inr (List.mem_append_right _ ht)
+          · exact hpreOut Fut (fun t ht => ht) b' hb'
           · exact outside_outsideI (q3 b' hb') (fun t ht => ht)
         refine ⟨⟨R.brs, Q.brs, by rw [t5], hothers⟩, by rw [← t5, fb1]; exact hsim.bid,
-          by rw [← t5, fb3]; exact hsim.loc, by rw [← t5, fb3]; exact t9, ?_,
+          by rw [← t5, fb3]; exact hsim.loc, by rw [← t5, fb3]; exact t9, huiNext Fut (fun t ht => ht),
           fun t ht => hsim.fup t (List.mem_append_right _ ht), ?_, ?_⟩
-        · intro t ht
-          simp only [UiNext] at ht
-          split at ht
-          · exact ⟨huiup t ht, fun hf => (hsim.ui t ht).2 (List.mem_append_right _ hf)⟩
-          · rcases List.mem_append.mp ht with ht | ht
-            · exact ⟨huiup t ht, fun hf => (hsim.ui t ht).2 (List.mem_append_right _ hf)⟩
-            · have hx : t ∈ x.cells := by simpa [cellsOf] using ht
-              exact ⟨hxup t hx, hdisj t hx⟩
         · intro t ht
           have hnp := hFutNot t ht
           have hpr := hsim.prist t (List.mem_append_right _ ht)
@@ -383,21 +420,27 @@ theorem fillG_sim (i : Nat) (st0 : Store C) (Ui Fut : List Tok) (lastOrig : Bool
         · intro t ht
           rw [q1 t (Or.inl ht)]
           exact t7 t ht
-
+      refine ⟨by simp only; rw [proj_append, proj_append, p2, hTproj, q2, t4]; simp, ?_, hSim.weakenF (by simp), fun _ => hSim⟩
+      intro h; rw [← t6] at h; exact absurd h hstop
 
 /-! ## a whole flow -/
+
+theorem aloneFillLife_nil (st0 st : Store C) (b : Branch σ S C) :
+    aloneFillLife st0 st b [] = ([], st, b, false) := rfl
 
 theorem fillFlow_sim (i : Nat) (st0 : Store C) (lastOrig : Bool) : ∀ (flow : List (Item S)) (Ui : List Tok)
     (w : World C) (act : List (Branch σ S C)) (stA : Store C) (b : Branch σ S C),
     Sim i st0 Ui (cellsOf flow) w act stA b → (cellsOf flow).Nodup →
     ∃ sched : List (Item S × Item S × Bool),
       sched.map (·.1) = flow.take sched.length ∧ (∀ e ∈ sched, FillOK i e) ∧
-      proj i (fillFlow (fillG lastOrig) w act flow).evs = (aloneFillLife st0 stA b sched).1 := by
+      proj i (fillFlow (fillG lastOrig) w act flow).evs = (aloneFillLife st0 stA b sched).1 ∧
+      ∃ Ui', Sim i st0 Ui' [] (fillFlow (fillG lastOrig) w act flow).w (fillFlow (fillG lastOrig) w act flow).brs
+        (aloneFillLife st0 stA b sched).2.1 (aloneFillLife st0 stA b sched).2.2.1 := by
   intro flow
   induction flow with
   | nil =>
-    intro Ui w act stA b _ _
-    exact ⟨[], rfl, by simp, by simp [fillFlow, aloneFillLife, proj]⟩
+    intro Ui w act stA b hsim _
+    exact ⟨[], rfl, by simp, by simp [fillFlow, aloneFillLife, proj], Ui, by simpa [fillFlow, aloneFillLife] using hsim⟩
   | cons x xs ih =>
     intro Ui w act stA b hsim hnd
     rw [cellsOf_cons] at hsim hnd
@@ -405,32 +448,37 @@ theorem fillFlow_sim (i : Nat) (st0 : Store C) (lastOrig : Bool) : ∀ (flow : L
     have hdisj : ∀ t ∈ x.cells, t ∉ cellsOf xs := fun t ht hin => hnd.2.2 t ht t hin rfl
     unfold fillFlow
     simp only
-    rcases fillG_sim i st0 Ui (cellsOf xs) lastOrig x w act stA b hsim hdisj with ⟨h1, h2⟩ | ⟨y, copied, s1, s2, s3, s4, s5, s6⟩
-    · refine ⟨[], rfl, by simp, ?_⟩
-      simp only [h2, if_true, h1, aloneFillLife]
+    rcases fillG_sim i st0 Ui (cellsOf xs) lastOrig x w act stA b hsim hdisj with ⟨h1, h2, h3⟩ | ⟨y, copied, s1, s2, s3, s4, s5, s6, s7⟩
+    · refine ⟨[], rfl, by simp, ?_, Ui, ?_⟩
+      · simp only [h2, if_true, h1, aloneFillLife]
+      · simpa only [h2, if_true, aloneFillLife_nil] using h3
     · cases hst : (fillG lastOrig x w act).stopped with
       | true =>
-        refine ⟨[(x, y, copied)], by simp, ?_, ?_⟩
+        refine ⟨[(x, y, copied)], by simp, ?_, ?_, UiNext copied Ui [x], ?_⟩
         · intro e he; simp at he; subst he; exact ⟨s1, s2, s3⟩
         · simp only [if_true, s4, aloneFillLife]
           split
           · rfl
           · simp
+        · simp only [if_true, aloneFillLife]
+          split
+          · exact s6
+          · simpa using s6
       | false =>
         have hns : (aloneFill st0 x y copied stA b).2.2.2 = false := by
           cases h : (aloneFill st0 x y copied stA b).2.2.2 with
           | false => rfl
           | true => rw [s5 h] at hst; exact absurd hst (by simp)
-        obtain ⟨sched, r1, r2, r3⟩ := ih (UiNext copied Ui [x]) (fillG lastOrig x w act).w (fillG lastOrig x w act).brs
-          (aloneFill st0 x y copied stA b).2.1 (aloneFill st0 x y copied stA b).2.2.1 (s6 hst) hnd.2.1
-        refine ⟨(x, y, copied) :: sched, by simp [r1], ?_, ?_⟩
+        obtain ⟨sched, r1, r2, r3, Ui', r4⟩ := ih (UiNext copied Ui [x]) (fillG lastOrig x w act).w (fillG lastOrig x w act).brs
+          (aloneFill st0 x y copied stA b).2.1 (aloneFill st0 x y copied stA b).2.2.1 (s7 hst) hnd.2.1
+        refine ⟨(x, y, copied) :: sched, by simp [r1], ?_, ?_, Ui', ?_⟩
         · intro e he
           rcases List.mem_cons.mp he with rfl | he
           · exact ⟨s1, s2, s3⟩
           · exact r2 e he
         · simp only [Bool.false_eq_true, if_false, aloneFillLife, hns]
           rw [proj_append, s4, r3]
-
+        · simpa only [Bool.false_eq_true, if_false, aloneFillLife, hns] using r4
 
 /-- the simulation relation holds at the start: all branches refer to their own objects only -/
 theorem sim_init (brs : List (Branch σ S C)) (w : World C) (F : List Tok) (hF : ∀ t ∈ F, t.1 = upNs)
@@ -472,6 +520,96 @@ theorem fillFlow_congr (f g : Item S → World C → List (Branch σ S C) → Fi
   | nil => intro w brs; rfl
   | cons x xs ih => intro w brs; simp only [fillFlow, h, ih]
 
+/-! ## `compute()` / `request()` after the filling -/
+
+theorem collect_append (req : Req S) (ev : Nat → Ev S C) : ∀ (pre suf : List (Branch σ S C)) (st : Store C),
+    collect req ev st (pre ++ suf) =
+      ((collect req ev st pre).1 ++ (collect req ev (collect req ev st pre).2.1 suf).1,
+       (collect req ev (collect req ev st pre).2.1 suf).2.1,
+       (collect req ev st pre).2.2 ++ (collect req ev (collect req ev st pre).2.1 suf).2.2) := by
+  intro pre
+  induction pre with
+  | nil => intro suf st; simp [collect]
+  | cons b rest ih =>
+    intro suf st
+    simp only [List.cons_append, collect, ih]
+    simp [List.append_assoc]
+
+theorem collect_others (i : Nat) (P : Tok → Prop) (req : Req S) (hreq : req.cells = []) (ev : Nat → Ev S C)
+    (hev : ∀ j, (ev j).branch = some j) : ∀ (pre : List (Branch σ S C)) (st : Store C),
+    (∀ b ∈ pre, Outside i P b) →
+    (∀ t, P t → (collect req ev st pre).2.1 t = st t) ∧ proj i (collect req ev st pre).1 = [] := by
+  intro pre
+  induction pre with
+  | nil => intro st _; simp [collect, proj]
+  | cons b rest ih =>
+    intro st hout
+    obtain ⟨hid, hloc, hns, hrefs⟩ := hout b (List.mem_cons_self ..)
+    have hW : ∀ t, foot (ownNs b.id) (b.ops.refs b.st) req.cells t → ¬ P t := by
+      intro t ht hp
+      rcases ht with ht | ht | ht
+      · exact (hns t hp).1 ht
+      · exact hrefs t ht hp
+      · rw [hreq] at ht; simp at ht
+    obtain ⟨i1, i2⟩ := ih (b.ops.act st b.st req).1 (fun b' hb' => hout b' (List.mem_cons_of_mem _ hb'))
+    simp only [collect]
+    refine ⟨fun t hp => by rw [i1 t hp, act_frame hloc (fun t => ¬ P t) _ _ hW _ t (fun h => h hp)], ?_⟩
+    have h1 : proj i (ev b.id :: outsEv b.id (b.ops.act st b.st req).1 (b.ops.act st b.st req).2.2.outs) = [] := by
+      apply proj_none i b.id hid
+      intro e he
+      rcases List.mem_cons.mp he with rfl | he
+      · exact hev b.id
+      · exact outsEv_branch _ _ _ e he
+    rw [show ev b.id :: outsEv b.id (b.ops.act st b.st req).1 (b.ops.act st b.st req).2.2.outs ++
+          (collect req ev (b.ops.act st b.st req).1 rest).1 =
+        (ev b.id :: outsEv b.id (b.ops.act st b.st req).1 (b.ops.act st b.st req).2.2.outs) ++
+          (collect req ev (b.ops.act st b.st req).1 rest).1 from rfl, proj_append, h1, i2]
+    rfl
+
+/-- what branch `i` yields in `Split._compute()` / `_request()` (and when the sequences of a `Zip` are computed in
+turn) is what it yields alone -/
+theorem collect_sim (i : Nat) (st0 : Store C) (Ui : List Tok) (req : Req S) (hreq : req.cells = [])
+    (ev : Nat → Ev S C) (hev : ∀ j, (ev j).branch = some j) (w : World C) (act : List (Branch σ S C))
+    (stA : Store C) (b : Branch σ S C) (hsim : Sim i st0 Ui [] w act stA b) :
+    proj i (collect req ev w.st act).1 =
+      ev i :: outsEv i (b.ops.act stA b.st req).1 (b.ops.act stA b.st req).2.2.outs := by
+  obtain ⟨pre, suf, hact, hout⟩ := hsim.split
+  subst hact
+  have huiup : ∀ t ∈ Ui, t.1 = upNs := fun t ht => (hsim.ui t ht).1
+  have hoP : ∀ b' ∈ pre ++ suf, Outside i (fun t => Prot i Ui t ∨ t ∈ ([] : List Tok)) b' :=
+    fun b' hb' => outsideI_outside (hout b' hb') huiup (by intro t ht; simp at ht)
+  obtain ⟨p1, p2⟩ := collect_others i _ req hreq ev hev pre w.st (fun b' hb' => hoP b' (List.mem_append_left _ hb'))
+  rw [collect_append, proj_append, p2]
+  simp only [collect, List.nil_append]
+  have hb := hsim.bid
+  subst hb
+  have hW : ∀ t, foot (ownNs b.id) (b.ops.refs b.st) req.cells t → Prot b.id Ui t := by
+    intro t ht
+    rcases ht with ht | ht | ht
+    · exact Or.inl ht
+    · exact hsim.mine t ht
+    · rw [hreq] at ht; simp at ht
+  have hag : Agree (Prot b.id Ui) (collect req ev w.st pre).2.1 stA := by
+    intro t ht
+    rw [p1 t (Or.inl ht)]
+    exact hsim.agree t ht
+  obtain ⟨a1, a2⟩ := act_agree hsim.loc (Prot b.id Ui) b.st req hW hag
+  have ho := (act_refs hsim.loc (Prot b.id Ui) b.st req hW (collect req ev w.st pre).2.1).2
+  obtain ⟨_, q2⟩ := collect_others b.id _ req hreq ev hev suf (b.ops.act (collect req ev w.st pre).2.1 b.st req).1
+    (fun b' hb' => hoP b' (List.mem_append_right _ hb'))
+  rw [show ev b.id :: outsEv b.id (b.ops.act (collect req ev w.st pre).2.1 b.st req).1
+          (b.ops.act (collect req ev w.st pre).2.1 b.st req).2.2.outs ++
+        (collect req ev (b.ops.act (collect req ev w.st pre).2.1 b.st req).1 suf).1 =
+      (ev b.id :: outsEv b.id (b.ops.act (collect req ev w.st pre).2.1 b.st req).1
+          (b.ops.act (collect req ev w.st pre).2.1 b.st req).2.2.outs) ++
+        (collect req ev (b.ops.act (collect req ev w.st pre).2.1 b.st req).1 suf).1 from rfl,
+    proj_append, q2, List.append_nil, outsEv_agree b.id (Prot b.id Ui) a2 _ ho, a1]
+  apply proj_all
+  intro e he
+  rcases List.mem_cons.mp he with rfl | he
+  · exact hev b.id
+  · exact outsEv_branch _ _ _ e he
+
 /-- `Split._fill` (`lastOrig = true`) and `Zip._fill` (`lastOrig = false`): every branch is filled as if alone -/
 theorem fillG_alone (lastOrig : Bool) (brs : List (Branch σ S C)) (w : World C) (flow : List (Item S))
     (hup : ∀ t ∈ cellsOf flow, t.1 = upNs) (hnd : (cellsOf flow).Nodup)
@@ -479,7 +617,16 @@ theorem fillG_alone (lastOrig : Bool) (brs : List (Branch σ S C)) (w : World C)
     (hrefs : ∀ b ∈ brs, ∀ t ∈ b.ops.refs b.st, t.1 = ownNs b.id) (b : Branch σ S C) (hb : b ∈ brs) :
     ∃ sched : List (Item S × Item S × Bool),
       sched.map (·.1) = flow.take sched.length ∧ (∀ e ∈ sched, FillOK b.id e) ∧
-      proj b.id (fillFlow (fillG lastOrig) w brs flow).evs = (aloneFillLife w.st w.st b sched).1 :=
-  fillFlow_sim b.id w.st lastOrig flow [] w brs w.st b (sim_init brs w (cellsOf flow) hup hids hloc hrefs b hb) hnd
+      proj b.id (fillFlow (fillG lastOrig) w brs flow).evs = (aloneFillLife w.st w.st b sched).1 ∧
+      ∀ (req : Req S) (ev : Nat → Ev S C), req.cells = [] → (∀ j, (ev j).branch = some j) →
+        proj b.id (collect req ev (fillFlow (fillG lastOrig) w brs flow).w.st (fillFlow (fillG lastOrig) w brs flow).brs).1 =
+          ev b.id :: outsEv b.id
+            ((aloneFillLife w.st w.st b sched).2.2.1.ops.act (aloneFillLife w.st w.st b sched).2.1
+              (aloneFillLife w.st w.st b sched).2.2.1.st req).1
+            ((aloneFillLife w.st w.st b sched).2.2.1.ops.act (aloneFillLife w.st w.st b sched).2.1
+              (aloneFillLife w.st w.st b sched).2.2.1.st req).2.2.outs := by
+  obtain ⟨sched, r1, r2, r3, Ui', r4⟩ := fillFlow_sim b.id w.st lastOrig flow [] w brs w.st b
+    (sim_init brs w (cellsOf flow) hup hids hloc hrefs b hb) hnd
+  exact ⟨sched, r1, r2, r3, fun req ev hreq hev => collect_sim b.id w.st Ui' req hreq ev hev _ _ _ _ r4⟩
 
 end Lena.C04
